@@ -556,7 +556,7 @@ structure RFrame where
   c : Cursor
   last : Option Nat
   pending : List Nat
-deriving Repr
+deriving Repr, DecidableEq
 
 def RFrame.fresh (g : Nat) : RFrame := ⟨g, .notStarted, none, []⟩
 
